@@ -473,6 +473,12 @@ fn ceilings_for(start: &str, depth: usize, thorough: bool) -> Vec<Option<String>
     if thorough || start.ends_with("leaf") {
         v.push(Some("$R/_store/nomatch".into()));
     }
+    // two ceilings, one of them the start directory itself (which has no effect), the other its parent: both orders
+    if !thorough && anc.len() >= 2 {
+        let (me, parent) = (&anc[anc.len() - 1], &anc[anc.len() - 2]);
+        v.push(Some(format!("{me}:{parent}")));
+        v.push(Some(format!("{parent}:{me}")));
+    }
     if thorough {
         for a in &anc {
             v.push(Some(format!("{a}/")));
@@ -819,7 +825,7 @@ pub fn run(run: &'static Run) {
         "layout = chain of <= {max_depth} nested directories, each of kind {:?} (plus side directories _store, _main, _mainbare.git and a plain leaf); \
          start = every directory of the layout incl. directories inside git dirs and private worktree git dirs; \
          spelling = absolute | '.' with cwd=start | relative from the root | '../'*n from every directory n<={} levels below{}; \
-         GIT_CEILING_DIRECTORIES = unset | each ancestor-or-self of the start up to the layout root | a non-matching directory{}. \
+         GIT_CEILING_DIRECTORIES = unset | each ancestor-or-self of the start up to the layout root | a non-matching directory | the pair (start, parent of start) in both orders{}. \
          Non-trivial = git finds a repository, or a ceiling was set.",
         kinds_alphabet(thorough),
         if thorough { 3 } else { 2 },
